@@ -164,6 +164,8 @@ MAT = r"(&'[a-z]+ )?Matrix[2-4]<S>"
 
 
 def contracts(unit, im, f):
+    if im is None:
+        return None
     st, self_ref = base_type(im.selfty)
     tn = trait_name(im.trait)
     ta = trait_args(im.trait)
@@ -602,6 +604,8 @@ def c02_hints(F):
 
 def contracts_c02(hints):
     def fn(unit, im, f):
+        if im is None:
+            return None
         st, self_ref = base_type(im.selfty)
         tn = trait_name(im.trait)
         name = f.name
